@@ -135,8 +135,11 @@ const (
 func GetMACPayloadAndSize(uplink bool, c CID) (MACCommandPayload, int, error) {
 	macPayloadMutex.RLock()
 	defer macPayloadMutex.RUnlock()
+	defer verifHook("runlock", uplink, c, 0)
+	verifHook("rlock", uplink, c, 0)
 
 	v, ok := macPayloadRegistry[uplink][c]
+	verifHook("read", uplink, c, v.size)
 	if !ok {
 		return nil, 0, fmt.Errorf("lorawan: payload unknown for uplink=%v and CID=%v", uplink, c)
 	}
@@ -158,11 +161,14 @@ func RegisterProprietaryMACCommand(uplink bool, cid CID, payloadSize int) error 
 
 	macPayloadMutex.Lock()
 	defer macPayloadMutex.Unlock()
+	defer verifHook("wunlock", uplink, cid, payloadSize)
+	verifHook("wlock", uplink, cid, payloadSize)
 
 	macPayloadRegistry[uplink][cid] = macPayloadInfo{
 		size:    payloadSize,
 		payload: func() MACCommandPayload { return &ProprietaryMACCommandPayload{} },
 	}
+	verifHook("write", uplink, cid, payloadSize)
 
 	return nil
 }
